@@ -90,6 +90,7 @@ type World struct {
 	counter    uint64
 	hi         [nAccounts]uint64  // highest chain nonce any block has reached per account
 	headNonces map[[2]uint64]bool // (account, chain nonce) pairs of every block that has been the head
+	bigBalance *big.Int           // when set, every account holds this balance (price lattice: beyond uint64)
 	feed       event.Feed
 }
 
@@ -269,9 +270,12 @@ func (w *World) StateAt(root common.Hash) (*state.StateDB, error) {
 		return nil, err
 	}
 	for i, a := range b.st {
-		if a.Nonce != 0 || a.Balance != 0 {
+		if a.Nonce != 0 || a.Balance != 0 || w.bigBalance != nil {
 			sdb.SetNonce(w.addrs[i], a.Nonce)
 			sdb.SetBalance(w.addrs[i], new(big.Int).SetUint64(a.Balance))
+			if w.bigBalance != nil {
+				sdb.SetBalance(w.addrs[i], new(big.Int).Set(w.bigBalance))
+			}
 		}
 	}
 	return sdb, nil
